@@ -91,7 +91,7 @@ class CmpProp(Prop):
         return [(p[0], p[2]) if p[0] == 'IMPL' else p for p in parts if p[0] != 'ITEM']
 
     def oracle(self, tier, rng, suspicious):
-        results = R.run_cases(self.cases(tier, rng))
+        results = self.l1_results or R.run_cases(self.cases(tier, rng))
         mods = []
         for r in results:
             m = r.meta
